@@ -8,7 +8,8 @@ Fq2::square_root: the Adj / Rodriguez-Henriquez algorithm 9 structure with (q-3)
 constants (r-1 = 2^32 t, (t+1)/2, a primitive 2^32-th root of unity);  map_to_cyclotomic: exponent (q^6-1)(q^2+1)."""
 from poly import Poly
 from symx import Interp, Leaf, Obj, Arr, Cell, Ptr, POISON, SymxError, CutDone, loops_of, locals_of, run_iteration, for_parts, loop_var
-from groupdom import GroupDomain, Lin, LinE
+from groupdom import GroupDomain, LinZ, LinE
+from groupdom import LinZ as Lin
 from ringdom import RingDomain, leaves_of
 from scen import ScenUnit, guarded
 from bvspec import Q, R
@@ -207,3 +208,65 @@ def units():
             ScenUnit("field constants: Montgomery parameters, square-root and Legendre exponents, Tonelli-Shanks constants", ["C02", "C04"], gen_constants, contracts_used=["native constant dump vs reference primes"]),
             ScenUnit("Fp::legendre: exponent (p-1)/2 and the 0 / 1 / -1 mapping", ["C02"], gen_legendre, contracts_used=lower + ["Euler's criterion (textbook)"]),
             ScenUnit("Fq12::map_to_cyclotomic exponent", ["C04"], gen_cyclotomic, contracts_used=["Fq12 operations on discrete logs (C04)"])]
+
+
+# ---------------------------------------------------------------------------
+# square roots: structure in the exponent view (real bodies, constant exponents executed bit by bit), incl. out = a where permitted
+def gen_sqrt(tu):
+    for alias in (False, True):
+        def run(path, alias=alias):
+            dom = ExpoDomain(["Fq"], consts=U.SHARED.get("consts"))
+            I = Interp(tu, dom)
+            I.path = path
+            f = tu.func("Fq::square_root")
+            a = I.new_object("Fq")
+            a.val = Lin.gen("a")
+            this = a if alias else I.new_object("Fq")
+            I.call(f, this, [a], force_body=True)
+            obs = [lin_eq("Fq::square_root%s == a^((q+1)/4)" % (" (out = a)" if alias else ""), this.val, Lin.gen("a").scale((Q + 1) // 4))]
+            obs += [(k, "fail", m, None) for (k, m) in dom.findings]
+            return obs
+        yield "Fq::square_root" + (" [out=a]" if alias else ""), guarded(run)
+
+
+def gen_doubleadd_wrappers(tu):
+    from groupdom import Lin
+    """Projective::multiply_doubleadd(base, k): the base is copied first, so out = base is fine (C18) and the restrict callee gets distinct objects"""
+    for q in sorted(x for x in tu.by_qname if "::multiply_doubleadd(" in x and tu.by_qname[x].body is not None):
+        f = tu.func(q)
+        for alias in (False, True):
+            def run(path, f=f, q=q, alias=alias):
+                calls = []
+
+                def restricted(I_, f_, this, args):
+                    calls.append(this is args[0])
+                    if this is args[0]:
+                        I_.dom.findings.append(("restrict", "%s called with its __restrict base aliasing the written object" % f_.qname))
+                    this.val = I_.dom.gval(args[0]).scale(I_.dom.sval(args[1]))
+                restricted.raw = True
+                oc = {x: restricted for x in tu.by_qname if "::multiply_doubleadd_restrict(" in x}
+                dom = GroupDomain(consts=U.SHARED.get("consts"), obj_contracts=oc)
+                I = Interp(tu, dom)
+                I.path = path
+                bt = norm(f.param_type(0))
+                base = I.new_object(bt)
+                base.val = Lin.gen("P")
+                same_type = (I.canon(bt) == I.canon(f.record.qname)) or isinstance(base, Leaf) and base.type == I.new_object(f.record.qname).type
+                if alias and not same_type:
+                    return []
+                this = base if alias else I.new_object(f.record.qname)
+                k = I.new_object("BigInt<256>")
+                k.val = Poly.var("k")
+                I.call(f, this, [base, k, Cell(255)], force_body=True)
+                obs = [lin_eq("multiply_doubleadd%s == k*P" % (" (out = base)" if alias else ""), this.val, Lin.gen("P").scale(Poly.var("k")))]
+                obs += [(kd, "fail", m, None) for (kd, m) in dom.findings]
+                return obs
+            yield q[:70] + (" [out=base]" if alias else ""), guarded(run)
+
+
+_xu0 = units
+
+
+def units():
+    return _xu0() + [ScenUnit("Fq::square_root == a^((q+1)/4), also in place", ["C02", "C18"], gen_sqrt, targets=["Fq::square_root"], contracts_used=["Fq::multiply / square / copy", "q = 3 mod 4: a^((q+1)/4) is a root of a square (textbook)"]),
+                     ScenUnit("Projective::multiply_doubleadd copies the base (out = base allowed)", ["C06", "C18"], gen_doubleadd_wrappers, contracts_used=["multiply_doubleadd_restrict (loop-cut unit)"])]
